@@ -272,13 +272,19 @@ def rstatus_http_status_table(ctx):
 
 
 
+def rloop_event_loops_keep_polling(ctx):
+    """the loops that admit connections and release slots suspend only at vetted points"""
+    from .common import event_loops_suspend_only_where_vetted
+    event_loops_suspend_only_where_vetted(ctx, "C11.LOOP")
+
+
 def rspawn_vetted_spawn_sites(ctx):
     """work is detached only at the vetted sites"""
     from .common import vetted_spawns
     vetted_spawns(ctx, "C11.SPAWN")
 
 
-RULES = [r1_gate, r2_hold_until_done, r3_no_forget, r4_limit_provenance, r5_ws_close_reasons, r6_vetted_transport_options, rcfg_config_verbatim, rstatus_http_status_table, rspawn_vetted_spawn_sites]
+RULES = [r1_gate, r2_hold_until_done, r3_no_forget, r4_limit_provenance, r5_ws_close_reasons, r6_vetted_transport_options, rcfg_config_verbatim, rstatus_http_status_table, rspawn_vetted_spawn_sites, rloop_event_loops_keep_polling]
 
 LEVEL_TEXT = (
     "Structural necessary conditions of the connection cap decided from the type-checked program: the acquire arm "
